@@ -271,8 +271,52 @@ def pipe_poll_rules(ctx, prog):
     ctx.floor("C09.V6", 3)
 
 
+def exit_pipe_number_rule(ctx, prog, rule="C09.V8"):
+    """V8: the exit event is the hang-up of the exit pipe, whose only write end lives in the child.  process_start installs the three
+    stream handles on descriptors 0, 1 and 2 of the child with dup2: if the child's end of the exit pipe sits on one of those numbers
+    it is overwritten, the parent closes its own copy after the start, and the pipe hangs up while the child runs.  pipe() hands out
+    the two lowest free numbers, and at most 0, 1 and 2 can be free below 3 (a parent running with standard descriptors closed): the
+    write end is above 2 exactly when at least two descriptors created earlier in this start are still open when the exit pipe is
+    made.  Decided on the all-paths run of reproc_start, per class of validated redirect types (how many descriptors they create)."""
+    from .. import startpath as SP
+    res, F, I, obj = SP.reproc_start_run(ctx, prog)
+    T = lambda name: I.abs_int(prog.const(name))
+    creates = {T("REPROC_REDIRECT_PIPE"): 2, T("REPROC_REDIRECT_DISCARD"): 1, T("REPROC_REDIRECT_PATH"): 1}
+    classes = {}
+    n = 0
+    for e in res.events:
+        if e[0] != "fd-create" or e[3][0] != "pipe":
+            continue
+        cs = e[6]
+        if not cs or cs[0][0] != "reproc_start" or "exit" not in cs[0][1] or "pipe_init" not in cs[0][1]:
+            continue
+        st = e[4]
+        val = st.mon.get("validated")
+        if val is None:
+            continue
+        n += 1
+        k = sum(creates.get(t, 0) for t in val)
+        before = len(SP.open_fds(st)) - 2
+        c = classes.setdefault(k, {"paths": 0, "min_open_before": None, "example": None})
+        c["paths"] += 1
+        if c["min_open_before"] is None or before < c["min_open_before"]:
+            c["min_open_before"] = before
+            c["example"] = [prog.const_name(t, "REPROC_REDIRECT_") if hasattr(prog, "const_name") else t for t in val]
+    if n == 0:
+        raise AnalysisBroken("%s: the creation of the exit pipe was not found on the start path" % rule)
+    for k in sorted(classes):
+        c = classes[k]
+        ctx.ob(rule, "reproc_start: exit pipe [redirect types that create %d descriptor%s]" % (k, "" if k == 1 else "s"),
+               "when the exit pipe is created at least two descriptors made earlier in this start are open, so its write end cannot be "
+               "0, 1 or 2 and survives the installation of the child's standard streams (a reported exit event then means the child "
+               "has exited)", c["min_open_before"] >= 2, {"paths": c["paths"], "open_before_at_least": c["min_open_before"],
+                                                           "example_types": c["example"]}, nontrivial=True)
+    ctx.floor(rule, 5)
+
+
 def check(ctx):
     prog = ctx.prog("posix-mt")
+    exit_pipe_number_rule(ctx, prog)
     poll_rules(ctx, prog)
     pipe_poll_rules(ctx, prog)
     # 'no requested stream can still be polled' is decided by comparing pipe fields with the invalid marker: a stream that was
